@@ -22,6 +22,13 @@ ASSUMPTIONS = ["pixel limit 2^20, scan limit 64 (500 in a fifth of the calls) an
 
 
 def classify(op, R):
+    if op.startswith("g11r "):
+        p = op.split(" ")
+        return "g11r:ss%s:cs%s:f%s:crop%d" % (p[1], p[4], p[8], 1 if p[10] != "0" else 0)
+    return _classify(op, R)
+
+
+def _classify(op, R):
     p = op.split(" ")
     if p[0] == "dfz":
         r = R.split(" ")
@@ -40,6 +47,13 @@ def gen_ops(rng, tier):
         ops.append(" ".join(o))
     for _ in range(160 if big else 45):
         ops.append("mkjpg %d %d" % (rng.randrange(2), rng.randrange(1 << 30)))
+    # valid streams through the libjpeg API into rows of exactly the documented size inside a canary field (the g11r operation of C11):
+    # RGB565 and the extended colourspaces, every dither mode, merged and separate upsampling, crops of every width
+    for _ in range(2000 if big else 350):
+        cs = rng.choice([16, 16, 16, 16, 6, 8, 9, 12, 13, 2])
+        ops.append("g11r %d %d %d %d %d %d %d %d %d %d %d" % (rng.choice([0, 1, 2, 2, 2, 4, 3]), rng.choice([rng.randint(1, 100), 16, 17, 32, 33, 96]), rng.randint(1, 34), cs,
+                                                             rng.choice([0, 2]) if cs == 16 else rng.randrange(4), rng.choice([0, 2, 6]) if cs == 16 else rng.randrange(7),
+                                                             rng.randrange(3), rng.randrange(2), rng.randrange(100), rng.choice([0, 1, 2, 3, 4, 7, 16, 33, 64]), rng.randrange(1 << 30)))
     return ops
 
 
